@@ -14,7 +14,7 @@ import itertools
 import re
 from fractions import Fraction
 
-from common import Stream, budget, rng_for, to_gq, show
+from common import Stream, budget, rng_for, to_gq, show, from_gq, canon_op_json
 
 TRUSTED = [
     'C19: numpy.log2 / math.log(x, 2) / floor / ceil on the generated inputs (eps * n = 2^-k with k <= 28, L/M < 2^40) are exact or decided with margin; the Model uses exact integer arithmetic',
@@ -23,12 +23,14 @@ TRUSTED = [
 ]
 ASSUMPTIONS = [
     'LCU coefficients are non-negative dyadic floats with a positive sum, 0 < epsilon < 1 dyadic; alias-table weights are non-negative integers whose sum is a multiple of their number',
-    'DiagonalCoulombHamiltonian with real symmetric one_body / two_body; two-body integrals with the eight-fold symmetry of real orbitals, one-body real symmetric',
+    'DiagonalCoulombHamiltonian with real symmetric two_body and one_body real symmetric or Hermitian with purely imaginary off-diagonal entries (abs() is then exact); two-body integrals with the eight-fold symmetry of real orbitals, one-body real symmetric (non-symmetric real tensors: correspondence with the Model only)',
     'QR(L, M): 1 <= M <= L (the code calls sys.exit otherwise); QI(L): L >= 1; cost functions: even n >= 4, positive lam, dE, parameters for which the internal QR(d, m) is defined (d >= m)',
 ]
 OPEN_STATEMENTS = [
-    'lambda_norm_spec / one_norm_spec (lambda_norm and get_one_norm_int(_woconst) equal the 1-norm of the Jordan-Wigner coefficients for real symmetric DCH / eight-fold symmetric integrals): open as theorems (they need the Jordan-Wigner soundness results of C04); checked exactly by the Spec oracle jwOneNorm (Pauli decomposition from the Spec ladder action on all Fock states) for n <= 5 qubits (DCH) and n_orb <= 2 (3 on a sample).',
-    'mu minimal: the Model computes the least mu with eps*n*2^mu >= 1 (used by discretize_spec); minimality itself is not stated as a theorem, and the implementation returns mu+1 for eps*n = 2^-k with k in {29, 31, 39, 47, 51, 55, 58, 59, 62} because math.log(x, 2) is inexact there (not a violation of the property; such inputs are not generated).',
+    'lambda_norm: CLOSED for real symmetric inputs. lambda_norm_spec (Model of lambda_norm = sum of |c| over the non-identity strings of the Model of jordan_wigner(DiagonalCoulombHamiltonian), all real, image acts like the Spec operator), pauli_decomposition_unique (trace orthogonality: the Spec oracle jwOneNorm of any fermionic operator equals the sum of |c| of any canonical Pauli form acting like it) and lambda_norm_oracle (jwOneNorm n (const + sum T a+a + sum V nn) false = some (lambda_norm)) hold for every n; the only hypothesis is the exact-run flag jwDCHOk of the Model transform, evaluated by the driver (c19.spec.dch_pauli_norm) on every generated real Hamiltonian. Hermitian one_body with imaginary entries: correspondence + oracle only (the Model of lambda_norm takes real matrices).',
+    'one_norm_spec (get_one_norm_int(_woconst) = 1-norm of the Jordan-Wigner coefficients for eight-fold symmetric integrals): open as a theorem — pauli_decomposition_unique reduces it to reading off the coefficients of the Model image jwInteractionOp of the spin-orbital Hamiltonian (identity, Z, ZZ, hopping strings with and without an extra / missing Z, four-letter strings, with all index coincidences), which is not done. PROVED so far (one_norm_identity_coefficient, all integrals, no symmetry): the identity coefficient Tr(H)/4^n of the Spec operator molOp is htilde, and get_one_norm_int = |htilde| + get_one_norm_int_woconst, i.e. _woconst drops exactly the identity term (also evaluated by the driver: c19.spec.identity_coef, c19.spec.mol_op). The non-identity part is checked exactly by the Spec oracle jwOneNorm (Pauli decomposition from the Spec ladder action on all Fock states) for n_orb <= 2 (3 on a sample).',
+    'mu: the Model computes the least mu with eps*n*2^mu >= 1 and that minimality is a theorem (sub_bit_precision_spec); the implementation returns mu+1 for eps*n = 2^-k with k in {29, 31, 39, 47, 51, 55, 58, 59, 62} because math.log(x, 2) is inexact there (not a violation of the property; such inputs are not generated).',
+    'cost functions: PROVED beyond total = step x iterations: cost_sparse has a positive per-step cost for all parameters and its total is monotone in lam and 1/dE (sparse_total_monotone); compute_cost: per-step cost independent of lam, dE and total monotone when the per-step cost is non-negative (thc_total_monotone); QR2 / QI2 minimise over ALL k1, k2 >= 1 for table sizes <= 2^16 (qr2_global_minimiser, qi2_global_minimiser; larger tables: searched grid only).',
     'compute_cost / cost_sparse: the number of rotation bits br (arg-min of an arccos/sin expression) and np.pi are outside the theorems (parameters / rational enclosure); the ancilla counts are covered by correspondence only. cost_estimator: no Model (irrational powers); oracle stream on its integer bookkeeping and grid minimality only.',
 ]
 
@@ -90,7 +92,7 @@ _MAX_TIMEOUTS = 4
 _timeouts = [0]
 
 
-def call(fn, *args, **kw):
+def _call_raw(fn, *args, **kw):
     """call the implementation; a call that does not return within 15 s is reported, never waited for"""
     import signal
     if _timeouts[0] >= _MAX_TIMEOUTS:
@@ -111,6 +113,162 @@ def call(fn, *args, **kw):
         signal.signal(signal.SIGALRM, old)
 
 
+
+# ---------------------------------------------------------------- hardening: state / aliasing
+# (S) every call made through call() is checked for modified arguments; on a sample of the calls every mutable value
+#     the first call returned is modified in place and the call is repeated with fresh equal arguments: the second
+#     result must equal the first.
+
+_H = {'stream': None, 'rng': None, 'rate': 0.0}
+
+
+def harden(stream, rng, rate):
+    _H['stream'], _H['rng'], _H['rate'] = stream, rng, rate
+    stream.rule += ('; state checks: every call must leave its arguments unmodified, and on a sample of the calls (all of '
+                    'them in the thorough tier) the returned lists / arrays / dicts / operators are modified in place and the '
+                    'call is repeated with equal fresh arguments: same result required')
+
+
+def rate_for(ctx):
+    return 1.0 if (ctx.drift or ctx.tier != 'quick') else 0.3
+
+
+def norm(x):
+    """container- and numpy-type-insensitive normal form (tuples / arrays -> lists, numpy scalars -> Python)"""
+    import numpy
+    if x is None or isinstance(x, str):
+        return x
+    if isinstance(x, (bool, numpy.bool_)):
+        return bool(x)
+    if isinstance(x, (int, numpy.integer)):
+        return int(x)
+    if isinstance(x, (float, numpy.floating)):
+        return float(x)
+    if isinstance(x, (complex, numpy.complexfloating)):
+        return [float(x.real), float(x.imag)]
+    if isinstance(x, numpy.ndarray):
+        return norm(x.tolist())
+    if isinstance(x, (list, tuple, range)):
+        return [norm(e) for e in x]
+    if isinstance(x, dict):
+        return sorted(([norm(k), norm(v)] for k, v in x.items()), key=repr)
+    if hasattr(x, 'one_body') and hasattr(x, 'two_body'):
+        return ['dch', norm(x.one_body), norm(x.two_body), norm(getattr(x, 'constant', None))]
+    if hasattr(x, '__dict__'):
+        return [type(x).__name__, norm(vars(x))]
+    return repr(x)
+
+
+def mutate(x):
+    """modify in place every mutable value reachable from a returned object"""
+    import numpy
+    if isinstance(x, list):
+        for e in x:
+            mutate(e)
+        x.reverse()
+        x.append(987654321)
+    elif isinstance(x, tuple):
+        for e in x:
+            mutate(e)
+    elif isinstance(x, numpy.ndarray):
+        if x.flags.writeable and x.size:
+            try:
+                x[...] = 1
+            except Exception:  # noqa: BLE001
+                pass
+    elif isinstance(x, dict):
+        for e in list(x.values()):
+            mutate(e)
+        x.clear()
+    elif hasattr(x, '__dict__') and not isinstance(x, type):
+        for e in list(vars(x).values()):
+            mutate(e)
+
+
+def enc_arg(x):
+    """replayable encoding of an argument (keeps tuple / list / numpy distinctions)"""
+    import numpy
+    if x is None or isinstance(x, (bool, int, float, str)) and not isinstance(x, numpy.generic):
+        return x
+    if isinstance(x, (numpy.integer, numpy.floating)):
+        return {'np': type(x).__name__, 'v': x.item()}
+    if isinstance(x, tuple):
+        return {'t': [enc_arg(e) for e in x]}
+    if isinstance(x, list):
+        return [enc_arg(e) for e in x]
+    if isinstance(x, numpy.ndarray) and x.dtype.kind in 'if':
+        return {'nd': str(x.dtype), 'v': x.tolist(), 'fortran': bool(x.flags.f_contiguous and x.ndim > 1)}
+    return {'repr': show(norm(x), 400)}
+
+
+def dec_arg(x):
+    import numpy
+    if isinstance(x, list):
+        return [dec_arg(e) for e in x]
+    if isinstance(x, dict):
+        if 't' in x:
+            return tuple(dec_arg(e) for e in x['t'])
+        if 'np' in x:
+            return getattr(numpy, x['np'])(x['v'])
+        if 'nd' in x:
+            a = numpy.array(x['v'], dtype=x['nd'])
+            return numpy.asfortranarray(a) if x.get('fortran') else a
+        raise ValueError('not replayable')
+    return x
+
+
+def _checked(fn, args, run, repeat=True):
+    import copy
+    s, rng = _H['stream'], _H['rng']
+    if s is None:
+        return run(args)
+    try:
+        snap = copy.deepcopy(args)
+    except Exception:  # noqa: BLE001
+        return run(args)
+    before = norm(snap)
+    val, exc = run(args)
+    if exc is not None:
+        return val, exc
+    what = getattr(fn, '__name__', 'function')
+    case = {'fn': what, 'module': getattr(fn, '__module__', None), 'state_check': True, 'args': [enc_arg(a) for a in snap]}
+    if norm(args) != before:
+        s.violate('%s modified its arguments' % what, case, {'after': show(norm(args), 600)})
+    if repeat and rng.random() < _H['rate']:
+        s.count('second-call-after-mutation')
+        try:
+            first = copy.deepcopy(val)
+        except Exception:  # noqa: BLE001
+            return val, exc
+        mutate(val)
+        if norm(args) != before:
+            s.violate('%s: modifying the returned values changes the arguments (result aliases an argument)' % what, case, {})
+        val2, exc2 = run(copy.deepcopy(snap))
+        if exc2 is not None or norm(val2) != norm(first):
+            s.violate('%s: a second call with equal arguments, after the values returned by the first call were modified '
+                      'in place, gives a different result (state kept between calls / aliased results)' % what,
+                      case, {'first': show(norm(first), 600), 'second': show(norm(val2), 600), 'exception': exc2})
+        return first, exc
+    return val, exc
+
+
+def replay_state(fn, case):
+    """the (S) checks of one recorded call in a fresh process -> True when they pass"""
+    import copy
+    args = [dec_arg(a) for a in case['args']]
+    before = norm(args)
+    val = fn(*args)
+    if norm(args) != before:
+        return False
+    first = copy.deepcopy(val)
+    mutate(val)
+    return norm(fn(*[dec_arg(a) for a in case['args']])) == norm(first)
+
+
+def call(fn, *args, **kw):
+    return _checked(fn, list(args), lambda a: _call_raw(fn, *a, **kw))
+
+
 # ---------------------------------------------------------------- alias tables
 
 def stream_roulette(ctx, lcu):
@@ -118,15 +276,18 @@ def stream_roulette(ctx, lcu):
                'ValueError is compared) + random long lists (n <= 60, entries < 2^20); Spec: valid alternates, 0 <= keep <= target, '
                'two-stage distribution equals the weights exactly; non-trivial = some weight differs from the target')
     rng = rng_for(ctx.seed, 'c19-roulette')
+    harden(s, rng_for(ctx.seed, 'c19-roulette-state'), rate_for(ctx) / 3)
     t = 'thorough' if ctx.drift else ctx.tier
     b = Batch(ctx, s)
     nmax, emax = budget(t, (5, 6), (6, 7))
 
     def one(ws):
         import numpy
-        kind = rng.choice(['list', 'list', 'tuple', 'int64', 'int32']) if len(ws) else 'list'
-        arg = {'list': list(ws), 'tuple': tuple(ws), 'int64': numpy.array(ws, dtype=numpy.int64),
-               'int32': numpy.array(ws, dtype=numpy.int32)}[kind]
+        kind = rng.choice(['list', 'list', 'tuple', 'int64', 'int32', 'npint_list']) if len(ws) else 'list'
+        if max(ws, default=0) >= 2 ** 31 // max(1, len(ws)):
+            kind = 'list'
+        arg = (list(ws) if kind == 'list' else tuple(ws) if kind == 'tuple' else [numpy.int64(w) for w in ws]
+               if kind == 'npint_list' else numpy.array(ws, dtype=kind))
         res, exc = call(lcu._preprocess_for_efficient_roulette_selection, arg)
         case = {'fn': '_preprocess_for_efficient_roulette_selection', 'weights': list(ws), 'container': kind}
         s.count('container=' + kind)
@@ -153,7 +314,10 @@ def stream_roulette(ctx, lcu):
     for _ in range(budget(t, 1000, 5000)):
         n = rng.choice([2, 3, 5, 8, 13, 21, 40, 60])
         kind = rng.random()
-        if kind < 0.3:
+        if kind < 0.05:
+            # beyond 64 bits (Python integers only)
+            ws = [2 ** 70 + rng.randrange(0, 2 ** 20) for _i in range(n)]
+        elif kind < 0.3:
             ws = [rng.randrange(0, 2 ** 20) for _i in range(n)]
         elif kind < 0.6:
             ws = [rng.choice([0, 0, 1, rng.randrange(0, 50)]) for _i in range(n)]
@@ -169,11 +333,14 @@ def stream_roulette(ctx, lcu):
     return s
 
 
-def rand_coeffs(rng):
-    n = rng.choice([1, 2, 3, 4, 5, 6, 8, 12, 16])
+def rand_coeffs(rng, small=False):
+    n = rng.choice([1, 2, 3, 4, 5, 6, 8, 12, 16, 17, 24, 40])
     while True:
         den = rng.choice([[1], [1, 2, 4, 8, 64], [1, 2, 4, 8, 64]])
         cs = [rng.choice([0, 1, 1, 2, 3, 5, 8, 13, 100]) / rng.choice(den) for _ in range(n)]
+        if small:
+            # 6e-5 .. 1.2e-7 next to O(1) coefficients
+            cs = [c if rng.random() < 0.6 else rng.choice([1, 3, 5]) * 2.0 ** (-rng.randint(14, 23)) for c in cs]
         if sum(cs) > 0:
             break
     if rng.random() < 0.6:
@@ -187,17 +354,22 @@ def rand_coeffs(rng):
 
 
 def stream_lcu(ctx, lcu):
-    s = Stream('lcu-preprocessing', 'random non-negative dyadic coefficient lists (n <= 16) x epsilon = 2^-k (k <= 12) or 3 * 2^-k; '
+    s = Stream('lcu-preprocessing', 'random non-negative dyadic coefficient lists (n <= 40; lists, tuples, float64 arrays, lists of '
+               'numpy.float64, Python-int / int64 inputs; a fifth with coefficients 2^-14 .. 2^-23 next to O(1)) x epsilon = 2^-k '
+               '(k <= 12, k <= 22 on a sample) or 3 * 2^-k given as float / numpy.float64 / numpy.float32; '
                '_discretize_probability_distribution and preprocess_lcu_coefficients_for_reversible_sampling compared exactly with the '
                'Model; Spec: numerators sum to n 2^mu and are within epsilon (rational arithmetic), two-stage sampling probability '
                'within epsilon of the normalised coefficients, valid alternates, 0 <= keep <= 2^mu; cases where a float quotient '
                'hits an exact rounding tie are discarded; non-trivial = n >= 2')
     rng = rng_for(ctx.seed, 'c19-lcu')
+    harden(s, rng_for(ctx.seed, 'c19-lcu-state'), rate_for(ctx) / 2)
     t = 'thorough' if ctx.drift else ctx.tier
     b = Batch(ctx, s)
     for _ in range(budget(t, 2000, 8000)):
-        cs = rand_coeffs(rng)
-        k = rng.randint(1, 12)
+        small = rng.random() < 0.2
+        cs = rand_coeffs(rng, small)
+        # epsilon down to 2^-22 (only with coefficients that are multiples of 1/64: float rounding stays decided)
+        k = rng.randint(1, 12) if small or rng.random() < 0.7 else rng.randint(13, 22)
         eps = rng.choice([1, 1, 1, 3]) / 2 ** k
         if eps >= 1:
             eps = 0.5
@@ -215,21 +387,30 @@ def stream_lcu(ctx, lcu):
             q = cum / tot
             if x.denominator == 1 and (q.denominator & (q.denominator - 1)) != 0:
                 tie = True
+            # margin: the float evaluation of c / total * bins + 0.5 is within bins * 2^-50 of x
+            d = x - (x.numerator // x.denominator)
+            if d != 0 and min(d, 1 - d) < Fraction(bins, 2 ** 46):
+                tie = True
         if tie:
             s.discards += 1
             continue
         import numpy
         integral = all(float(c).is_integer() for c in cs)
-        kind = rng.choice(['list', 'list', 'tuple', 'float64'] + (['pyint', 'int64'] if integral else []))
+        kind = rng.choice(['list', 'list', 'tuple', 'float64', 'npfloat_list'] + (['pyint', 'int64'] if integral else []))
         arg = {'list': list(cs), 'tuple': tuple(cs), 'float64': numpy.array(cs, dtype=numpy.float64),
+               'npfloat_list': [numpy.float64(c) for c in cs],
                'pyint': [int(c) for c in cs] if integral else None,
                'int64': numpy.array(cs, dtype=numpy.int64) if integral else None}[kind]
+        # epsilon = j / 2^k (j in {1, 3}, k <= 22) is exact in every float type used
+        ekind = rng.choice(['float', 'float', 'float64', 'float32'])
+        eps_arg = {'float': eps, 'float64': numpy.float64(eps), 'float32': numpy.float32(eps)}[ekind]
         case = {'fn': 'preprocess_lcu_coefficients_for_reversible_sampling', 'lcu_coefficients': cs, 'epsilon': eps,
-                'container': kind}
+                'container': kind, 'epsilon_type': ekind}
+        s.count('epsilon_type=' + ekind)
         s.case(case, nontrivial=n >= 2)
         s.count('n=%d' % n)
         s.count('container=' + kind)
-        res, exc = call(lcu._discretize_probability_distribution, arg, eps)
+        res, exc = call(lcu._discretize_probability_distribution, arg, eps_arg)
         if exc:
             s.violate('unexpected exception in _discretize_probability_distribution: ' + exc, case, {})
             continue
@@ -239,7 +420,7 @@ def stream_lcu(ctx, lcu):
               [('discretisation: numerators do not sum to n 2^mu or are not within epsilon',
                 {'op': 'c19.spec.discretize', 'probs': frs(cs), 'eps': fr(eps), 'numers': numers, 'denom': denom, 'mu': mu},
                 is_true)])
-        res, exc = call(lcu.preprocess_lcu_coefficients_for_reversible_sampling, arg, eps)
+        res, exc = call(lcu.preprocess_lcu_coefficients_for_reversible_sampling, arg, eps_arg)
         if exc:
             s.violate('unexpected exception ' + exc, case, {})
             continue
@@ -303,11 +484,12 @@ def dch_terms(T, V, const):
     n = T.shape[0]
     terms = {}
     if const:
-        terms[()] = float(const)
+        terms[()] = complex(const) if complex(const).imag else complex(const).real
     for p in range(n):
         for q in range(n):
             if T[p, q] != 0:
-                terms[((p, 1), (q, 0))] = float(T[p, q])
+                c = complex(T[p, q])
+                terms[((p, 1), (q, 0))] = c if c.imag else c.real
             if V[p, q] != 0:
                 terms[((p, 1), (p, 0), (q, 1), (q, 0))] = float(V[p, q])
     return terms
@@ -334,91 +516,211 @@ def mol_terms(const, h, g):
 
 def stream_norms(ctx, of, lcu, gon):
     import numpy
-    s = Stream('one-norms', 'lambda_norm on random real symmetric DiagonalCoulombHamiltonians (n <= 5; one_body as float64 / float32 / '
-               'complex128, C or Fortran order) and get_one_norm_int / _woconst on random eight-fold symmetric integrals (n_orb <= 3) '
+    s = Stream('one-norms', 'lambda_norm on random real symmetric DiagonalCoulombHamiltonians (n <= 10, 17 thorough; one_body as float64 / '
+               'float32 / complex128, C or Fortran order; also Hermitian one_body with purely imaginary off-diagonal entries: Model on '
+               'the moduli; complex constants; entries 2^-14 .. 2^-23 next to O(1); the same object re-queried after *=, /= and entry '
+               'edits) and get_one_norm_int / _woconst on random eight-fold symmetric integrals (n_orb <= 4, 5 thorough) '
                'given as float64 / float32 (dyadic entries) or int64 / int32 numpy arrays (odd integer entries; Python lists are '
-               'rejected by the code: no .shape); compared exactly with the Model; '
+               'rejected by the code: no .shape), constants as float / numpy.float64 / int, MolecularData-like wrappers re-queried '
+               'after in-place edits, and on arbitrary non-symmetric real tensors (Model only); compared exactly with the Model; '
                'Spec: the returned number equals the sum of |c_P| of the Pauli decomposition of the fermionic Hamiltonian computed '
                'from the Spec action of ladder operators on all Fock states (n <= 5 qubits for DCH, n_orb <= 2, a few n_orb = 3); '
                'non-trivial = at least 2 orbitals')
     rng = rng_for(ctx.seed, 'c19-norms')
+    harden(s, rng_for(ctx.seed, 'c19-norms-state'), rate_for(ctx))
     t = 'thorough' if ctx.drift else ctx.tier
     b = Batch(ctx, s)
 
     def exact_eq(x):
         return lambda a: a is not None and Fraction(a[0], a[1]) == x
-    for _ in range(budget(t, 300, 1500)):
-        n = rng.choice([1, 2, 2, 3, 3, 4, 5])
-        vals = rng.choice([VALS, VALS, VALS_INT])
-        T, V = sym_matrix(rng, n, vals), sym_matrix(rng, n, vals)
-        const = rng.choice([0.0, 0.5, -1.25])
-        # one_body may be float64 / float32 / complex (real values); two_body must be float64 (checked by the class);
-        # integer one_body is rejected by the class itself (in-place += of a float diagonal)
-        kind = rng.choice(['float64', 'float64', 'float32', 'complex128'])
-        try:
-            H = of.DiagonalCoulombHamiltonian(as_dtype(rng, T, kind), as_dtype(rng, V, 'float64'), constant=const)
-        except Exception as e:  # noqa: BLE001
-            s.violate('DiagonalCoulombHamiltonian rejects a real symmetric input: ' + type(e).__name__,
-                      {'fn': 'lambda_norm', 'one_body': T.tolist(), 'two_body': V.tolist(), 'dtype': kind}, {})
-            continue
+
+    def small_vals(vals):
+        # 6e-5 .. 1.2e-7 next to the O(1) entries
+        return list(vals) + [rng.choice([1, -1, 3]) * 2.0 ** (-rng.randint(14, 23)) for _i in range(5)]
+
+    def query_lambda(H, case):
+        """lambda_norm of the CURRENT content of H against the Model and the Jordan-Wigner oracle"""
+        n = H.one_body.shape[0]
         val, exc = call(lcu.lambda_norm, H)
-        case = {'fn': 'lambda_norm', 'one_body': T.tolist(), 'two_body': V.tolist(), 'constant': const,
-                'one_body_dtype': kind}
         s.case(case, nontrivial=n >= 2)
         s.count('lambda_norm:n=%d' % n)
-        s.count('lambda_norm:dtype=' + kind)
         if exc:
             s.violate('unexpected exception ' + exc, case, {})
-            continue
+            return
         x = Fraction(float(val))
-        one, two = numpy.array(H.one_body).real, numpy.array(H.two_body)
-        terms = dch_terms(one, two, H.constant)
-        b.add(case, fr(x), {'op': 'c19.lambda_norm', 'one': [frs(r) for r in one.tolist()], 'two': [frs(r) for r in two.tolist()]},
-              [('lambda_norm differs from the 1-norm of the non-identity Jordan-Wigner coefficients',
-                {'op': 'c19.spec.jw_norm', 'n': n, 'operator': enc_ferm(terms), 'with_id': False}, exact_eq(x))])
+        one_c, two = numpy.array(H.one_body), numpy.array(H.two_body)
+        # purely imaginary Hermitian off-diagonal entries: abs() of the code is exact; the Model is evaluated on the moduli
+        # (diagonal real), the oracle on the operator itself
+        one_m = numpy.where(one_c.real != 0, one_c.real, numpy.abs(one_c.imag)) if numpy.iscomplexobj(one_c) else one_c
+        orc = []
+        if n <= 5:
+            terms = dch_terms(one_c, two, 0)
+            orc.append(('lambda_norm differs from the 1-norm of the non-identity Jordan-Wigner coefficients',
+                        {'op': 'c19.spec.jw_norm', 'n': n, 'operator': enc_ferm(terms), 'with_id': False}, exact_eq(x)))
+        if not (numpy.iscomplexobj(one_c) and one_c.imag.any()):
+            # lambda_norm_spec: on an exact run of the Model's jordan_wigner(DiagonalCoulombHamiltonian) the 1-norm of its
+            # non-identity coefficients is the Model's lambda_norm; the driver evaluates the hypothesis and that norm
+            def jw_ok(a, x=x):
+                if not isinstance(a, dict):
+                    return False
+                if a.get('ok') is not True:
+                    s.count('lambda_norm:jw-model-run-not-exact')
+                    return True
+                return a.get('real') is True and Fraction(a['norm'][0], a['norm'][1]) == x
+            s.count('lambda_norm:jw-model-norm')
+            orc.append(('lambda_norm differs from the 1-norm of the non-identity strings of the Model of '
+                        'jordan_wigner(DiagonalCoulombHamiltonian) (lambda_norm_spec)',
+                        {'op': 'c19.spec.dch_pauli_norm', 'one': [frs(r) for r in one_m.tolist()],
+                         'two': [frs(r) for r in two.tolist()], 'const': to_gq(complex(H.constant))}, jw_ok))
+        b.add(case, fr(x), {'op': 'c19.lambda_norm', 'one': [frs(r) for r in one_m.tolist()], 'two': [frs(r) for r in two.tolist()]},
+              orc)
+    for _ in range(budget(t, 300, 1500)):
+        n = rng.choice([1, 2, 2, 3, 3, 4, 5, 5, 6, 9, budget(t, 10, 17)])
+        vals = rng.choice([VALS, VALS, VALS_INT])
+        if rng.random() < 0.25:
+            vals = small_vals(vals)
+        T, V = sym_matrix(rng, n, vals), sym_matrix(rng, n, vals)
+        const = rng.choice([0.0, 0.5, -1.25, 0.5 + 0.25j, 2j])
+        # one_body may be float64 / float32 / complex (real values); two_body must be float64 (checked by the class);
+        # integer one_body is rejected by the class itself (in-place += of a float diagonal)
+        kind = rng.choice(['float64', 'float64', 'float32', 'complex128', 'complex128'])
+        if kind == 'float32' and vals is not VALS and vals is not VALS_INT:
+            kind = 'float64'
+        T_in = as_dtype(rng, T, kind)
+        imag = kind == 'complex128' and rng.random() < 0.5
+        if imag:
+            # Hermitian with purely imaginary off-diagonal entries (zero real part)
+            T_in = numpy.array(T_in)
+            for p_ in range(n):
+                for q_ in range(p_ + 1, n):
+                    T_in[p_, q_], T_in[q_, p_] = 1j * T[p_, q_], -1j * T[p_, q_]
+        case = {'fn': 'lambda_norm', 'one_body': T.tolist(), 'two_body': V.tolist(), 'constant': [const.real, const.imag],
+                'one_body_dtype': kind, 'imaginary_offdiagonal': imag}
+        try:
+            H = of.DiagonalCoulombHamiltonian(T_in, as_dtype(rng, V, 'float64'), constant=const)
+        except Exception as e:  # noqa: BLE001
+            s.violate('DiagonalCoulombHamiltonian rejects a Hermitian / real symmetric input: ' + type(e).__name__, case, {})
+            continue
+        s.count('lambda_norm:dtype=' + kind + (':imaginary' if imag else ''))
+        query_lambda(H, case)
+        # the same object edited in place must be answered according to its new content
+        if rng.random() < 0.3:
+            how = rng.choice(['*=2', '/=4', 'entry', 'two_body'])
+            try:
+                if how == '*=2':
+                    H *= 2
+                elif how == '/=4':
+                    H /= 4
+                elif how == 'entry' and n >= 2:
+                    p_, q_ = rng.sample(range(n), 2)
+                    H.one_body[p_, q_] = H.one_body[q_, p_] = 3.5
+                    H.one_body[p_, p_] = -0.75
+                elif n >= 2:
+                    p_, q_ = rng.sample(range(n), 2)
+                    H.two_body[p_, q_] = H.two_body[q_, p_] = -2.25
+                else:
+                    continue
+            except Exception:  # noqa: BLE001
+                continue
+            s.count('lambda_norm:edited-in-place:' + how)
+            query_lambda(H, {'fn': 'lambda_norm', 'edited_in_place': how, 'one_body': norm(H.one_body), 'two_body': norm(H.two_body),
+                             'dtype': str(H.one_body.dtype)})
     n3 = 0
-    for _ in range(budget(t, 200, 1000)):
-        n = rng.choice([1, 2, 2, 2, 3])
-        # integer-valued integrals are also given as numpy integer arrays (the accumulators of the code must not
-        # inherit the integer dtype: 1/2 * g would be truncated), dyadic ones as float64 / float32
-        kind_h = rng.choice(['float64', 'float64', 'int64', 'int32', 'float32'])
-        kind_g = rng.choice([kind_h, kind_h, 'float64', 'int64'])
-        ints = kind_h.startswith('int') or kind_g.startswith('int') or rng.random() < 0.2
-        h, g = sym_matrix(rng, n, VALS_INT if ints else VALS), sym8_tensor(rng, n, VALS_INT if ints else VALS)
-        const = rng.choice([0.0, 0.5, -1.25, 2.0]) if not ints else rng.choice([0, 1, -2, 0.5])
-        via = rng.choice(['int', 'int', 'mol'])
+
+    def query_one_norm(const, h, g, kind_h, kind_g, via, symmetric, extra=None, mol=None):
+        """get_one_norm_int(_woconst) (or the MolecularData wrappers) against the Model and the Jordan-Wigner oracle"""
+        nonlocal n3
+        n = h.shape[0]
+        ckind = 'float'
         if via == 'mol':
-            # the MolecularData wrappers only read three attributes
-            import types
-            mol = types.SimpleNamespace(nuclear_repulsion=const, one_body_integrals=as_dtype(rng, h, kind_h),
-                                        two_body_integrals=as_dtype(rng, g, kind_g))
             a, e1 = call(gon.get_one_norm_mol, mol)
             w, e2 = call(gon.get_one_norm_mol_woconst, mol)
         else:
-            a, e1 = call(gon.get_one_norm_int, const, as_dtype(rng, h, kind_h), as_dtype(rng, g, kind_g))
+            ckind = rng.choice(['float', 'float', 'float64', 'int' if float(const).is_integer() else 'float'])
+            c_arg = numpy.float64(const) if ckind == 'float64' else int(const) if ckind == 'int' else const
+            a, e1 = call(gon.get_one_norm_int, c_arg, as_dtype(rng, h, kind_h), as_dtype(rng, g, kind_g))
             w, e2 = call(gon.get_one_norm_int_woconst, as_dtype(rng, h, kind_h), as_dtype(rng, g, kind_g))
         case = {'fn': 'get_one_norm_int', 'constant': const, 'one_body_integrals': h.tolist(), 'two_body_integrals': g.tolist(),
-                'dtypes': [kind_h, kind_g], 'via': via}
+                'dtypes': [kind_h, kind_g], 'via': via, 'constant_type': ckind, 'symmetric': symmetric}
+        if extra:
+            case.update(extra)
         s.count('get_one_norm:via=' + via)
         s.case(case, nontrivial=n >= 2)
-        s.count('get_one_norm:n_orb=%d' % n)
+        s.count('get_one_norm:n_orb=%d' % n + ('' if symmetric else ':non-symmetric'))
         s.count('get_one_norm:dtypes=%s/%s' % (kind_h, kind_g))
         if e1 or e2:
             s.violate('unexpected exception %s' % (e1 or e2), case, {})
-            continue
+            return
         xa, xw = Fraction(float(a)), Fraction(float(w))
         hj = [frs(r) for r in h.tolist()]
         gj = [[[frs(r) for r in m] for m in blk] for blk in g.tolist()]
         orc_a, orc_w = [], []
-        if n <= 2 or (n == 3 and n3 < budget(t, 2, 10)):
+        if symmetric and (n <= 2 or (n == 3 and n3 < budget(t, 2, 10))):
             n3 += (n == 3)
             terms = enc_ferm(mol_terms(const, h, g))
             orc_a.append(('get_one_norm_int differs from the 1-norm of all Jordan-Wigner coefficients',
                           {'op': 'c19.spec.jw_norm', 'n': 2 * n, 'operator': terms, 'with_id': True}, exact_eq(xa)))
             orc_w.append(('get_one_norm_int_woconst differs from the 1-norm of the non-identity Jordan-Wigner coefficients',
                           {'op': 'c19.spec.jw_norm', 'n': 2 * n, 'operator': terms, 'with_id': False}, exact_eq(xw)))
+        if n <= 2 or (n == 3 and n3 <= budget(t, 2, 10)):
+            # one_norm_identity_coefficient (no symmetry needed): get_one_norm_int - get_one_norm_int_woconst is the modulus
+            # of the identity coefficient Tr(H) / 4^n of the Spec operator molOp; molOp itself is compared with the
+            # operator built here (mol_terms) as a set of terms
+            def ident_ok(ans, d=xa - xw, n=n):
+                re_, im_ = from_gq(ans)
+                return im_ == 0 and abs(re_) / 4 ** n == d
+            s.count('get_one_norm:identity-coefficient')
+            orc_a.append(('get_one_norm_int - get_one_norm_int_woconst is not the modulus of the identity coefficient of the '
+                          'Pauli decomposition (trace of the Spec operator over all Fock states)',
+                          {'op': 'c19.spec.identity_coef', 'const': fr(const), 'h': hj, 'g': gj}, ident_ok))
+            if n <= 2:
+                want = canon_op_json(enc_ferm(mol_terms(const, h, g)))
+
+                def molop_ok(ans, want=want):
+                    try:
+                        got = [e for e in canon_op_json(ans) if e[1] != (0, 0)]
+                    except Exception:  # noqa: BLE001
+                        return False
+                    return tuple(got) == tuple(e for e in want if e[1] != (0, 0))
+                orc_a.append(('Spec.C19.molOp differs from the operator constant + h a+a + 1/2 g a+a+aa built by the harness',
+                              {'op': 'c19.spec.mol_op', 'const': fr(const), 'h': hj, 'g': gj}, molop_ok))
         b.add(case, fr(xa), {'op': 'c19.one_norm', 'const': fr(const), 'h': hj, 'g': gj, 'woconst': False}, orc_a)
         b.add(dict(case, fn='get_one_norm_int_woconst'), fr(xw), {'op': 'c19.one_norm', 'h': hj, 'g': gj, 'woconst': True}, orc_w)
+    for _ in range(budget(t, 200, 1000)):
+        n = rng.choice([1, 2, 2, 2, 3, 3, budget(t, 4, 5)])
+        # integer-valued integrals are also given as numpy integer arrays (the accumulators of the code must not
+        # inherit the integer dtype: 1/2 * g would be truncated), dyadic ones as float64 / float32
+        kind_h = rng.choice(['float64', 'float64', 'int64', 'int32', 'float32'])
+        kind_g = rng.choice([kind_h, kind_h, 'float64', 'int64'])
+        ints = kind_h.startswith('int') or kind_g.startswith('int') or rng.random() < 0.2
+        vals = VALS_INT if ints else VALS
+        if not ints and kind_h == 'float64' and kind_g == 'float64' and rng.random() < 0.4:
+            vals = small_vals(vals)
+        symmetric = rng.random() < 0.8
+        if symmetric:
+            h, g = sym_matrix(rng, n, vals), sym8_tensor(rng, n, vals)
+        else:
+            # (A) arbitrary real tensors (no symmetry): Model only (the function is then not the 1-norm of an operator)
+            h = numpy.array([[rng.choice(vals) for _q in range(n)] for _p in range(n)], dtype=float)
+            g = numpy.array([rng.choice(vals) for _i in range(n ** 4)], dtype=float).reshape((n,) * 4)
+        const = rng.choice([0.0, 0.5, -1.25, 2.0]) if not ints else rng.choice([0, 1, -2, 0.5])
+        via = rng.choice(['int', 'int', 'mol'])
+        mol = None
+        if via == 'mol':
+            # the MolecularData wrappers only read three attributes
+            import types
+            mol = types.SimpleNamespace(nuclear_repulsion=const, one_body_integrals=as_dtype(rng, h, kind_h),
+                                        two_body_integrals=as_dtype(rng, g, kind_g))
+        query_one_norm(const, h, g, kind_h, kind_g, via, symmetric, mol=mol)
+        if mol is not None and kind_h == 'float64' and kind_g == 'float64' and rng.random() < 0.5:
+            # the same object edited in place is answered according to its new content
+            p_ = rng.randrange(n)
+            mol.one_body_integrals[p_, p_] += 1.5
+            mol.two_body_integrals[p_, p_, p_, p_] -= 0.75
+            mol.nuclear_repulsion = const + 1.0
+            s.count('get_one_norm:edited-in-place')
+            query_one_norm(mol.nuclear_repulsion, numpy.array(mol.one_body_integrals), numpy.array(mol.two_body_integrals),
+                           kind_h, kind_g, via, symmetric, {'edited_in_place': True}, mol=mol)
     b.flush()
     return s
 
@@ -427,10 +729,11 @@ def stream_norms(ctx, of, lcu, gon):
 
 def stream_qrom(ctx, ut):
     s = Stream('qrom-helpers', 'QR(L, M) for all 1 <= M <= L <= N and random L < 2^24; QI(L) for all L <= N2 and random; QR2 / QI2 on random '
-               'arguments; power_two(m) for all m <= 4096 and random; compared exactly with the Model; Spec: k minimises the cost '
+               'arguments in both orders (L1, L2) and (L2, L1); arguments as Python int / numpy.int64 / numpy.int32; power_two(m) for all m <= 4096 and random; compared exactly with the Model; Spec: k minimises the cost '
                'over all 0 <= k <= 24 and the value is the ceiling of the minimum; (2^k1, 2^k2) minimises over the 16 x 16 grid; '
                '2-adic valuation; non-trivial = L > M')
     rng = rng_for(ctx.seed, 'c19-qrom')
+    harden(s, rng_for(ctx.seed, 'c19-qrom-state'), rate_for(ctx) / 3)
     t = 'thorough' if ctx.drift else ctx.tier
     b = Batch(ctx, s)
 
@@ -484,11 +787,16 @@ def stream_qrom(ctx, ut):
         qi_case(L)
     for _ in range(budget(t, 300, 3000)):
         qi_case(rng.randrange(1, 2 ** rng.choice([12, 16, 20, 24, 30])))
-    for _ in range(budget(t, 150, 1500)):
+    pairs = []
+    for _ in range(budget(t, 100, 1000)):
         L1 = rng.randrange(1, 2 ** rng.choice([4, 8, 12, 20]))
         L2 = rng.randrange(1, 2 ** rng.choice([4, 8, 12, 20]))
         M = rng.randrange(1, 2 ** rng.choice([2, 6, 12, 17]))
-        res, exc = call(ut.QR2, L1, L2, M)
+        # both argument orders (L1 > L2 and L1 < L2) of the same pair
+        pairs += [(L1, L2, M), (L2, L1, M)]
+    for L1, L2, M in pairs:
+        s.count('QR2:L1>L2' if L1 > L2 else 'QR2:L1<=L2')
+        res, exc = call(ut.QR2, npint(L1), npint(L2), npint(M))
         case = {'fn': 'QR2', 'L1': L1, 'L2': L2, 'M': M}
         s.case(case)
         s.count('QR2')
@@ -499,7 +807,7 @@ def stream_qrom(ctx, ut):
             b.add(case, r, {'op': 'c19.qr2', 'L1': L1, 'L2': L2, 'M': M},
                   [('QR2: not a minimiser over the searched grid',
                     {'op': 'c19.spec.grid2', 'kind': 'qr2', 'L1': L1, 'L2': L2, 'M': M, 'p1': r[0], 'p2': r[1], 'val': r[2]}, is_true)])
-        res, exc = call(ut.QI2, L1, L2)
+        res, exc = call(ut.QI2, npint(L1), npint(L2))
         case = {'fn': 'QI2', 'L1': L1, 'L2': L2}
         s.case(case)
         s.count('QI2')
@@ -541,12 +849,27 @@ def thc_with_br(compute_cost, n, lam, dE, chi, beta, M, stps):
 
 def stream_costs(ctx, thc_cost, sparse_cost):
     s = Stream('cost-functions', 'compute_cost (THC) and cost_sparse on the parameter sets of the repository tests and a lattice / random '
-               'sample of integer parameters with dyadic lam, dE; br observed from the implementation; (step, total, ancilla) compared '
+               'sample of integer parameters with dyadic lam, dE (Python numbers, numpy.int64 / float64 scalars, integral lam as int); br observed from the implementation; (step, total, ancilla) compared '
                'exactly with the Model; Spec: total = step x iterations (iterations from the enclosure of pi), total and iterations '
                'monotone in lam and 1/dE on chains of 4 values; non-trivial = every case')
     rng = rng_for(ctx.seed, 'c19-costs')
+    harden(s, rng_for(ctx.seed, 'c19-costs-state'), rate_for(ctx))
     t = 'thorough' if ctx.drift else ctx.tier
     b = Batch(ctx, s)
+
+    def typed(params, lam_pos, de_pos):
+        """the same parameters as numpy scalars (int64 / float64) or with an integral lam as a Python int"""
+        import numpy
+        r = rng.random()
+        if r < 0.6:
+            return list(params), 'python'
+        if r < 0.8:
+            return [numpy.float64(x) if i in (lam_pos, de_pos) else numpy.int64(x) for i, x in enumerate(params)], 'numpy'
+        out = list(params)
+        if float(out[lam_pos]).is_integer():
+            out[lam_pos] = int(out[lam_pos])
+            return out, 'int-lam'
+        return out, 'python'
     # iterations for the monotonicity / total checks come from the Model op c19.iters
     thc_params = [(108, 306.3, 0.001, 10, 16, 350, 20000), (152, 1201.5, 0.001, 10, 20, 450, 20000),
                   (108, 306.3, 0.001, 10, 16, 350, 10912), (152, 1201.5, 0.001, 10, 20, 450, 16923)]
@@ -555,13 +878,16 @@ def stream_costs(ctx, thc_cost, sparse_cost):
         M = rng.randint(8, 600)
         chi = rng.randint(5, 14)
         beta = rng.randint(6, 22)
-        lam = rng.choice([1, 3, 10, 57, 306, 1201, 4000]) + rng.choice([0, 0.25, 0.5, 0.75])
-        dE = rng.choice([1 / 1024, 1 / 512, 1 / 256, 0.001, 0.0016, 1 / 64])
+        lam = rng.choice([1, 3, 10, 57, 306, 1201, 4000, 2.0 ** -10, 3 * 2.0 ** -14]) + rng.choice([0, 0, 0.25, 0.5, 0.75])
+        dE = rng.choice([1 / 1024, 1 / 512, 1 / 256, 0.001, 0.0016, 1 / 64, 2.0 ** -17])
         thc_params.append((n, lam, dE, chi, beta, M, rng.choice([1000, 20000, 50000])))
     chains = []
     for (n, lam, dE, chi, beta, M, stps) in thc_params:
-        res, br, exc = thc_with_br(thc_cost, n, lam, dE, chi, beta, M, stps)
-        case = {'fn': 'thc.compute_cost', 'n': n, 'lam': lam, 'dE': dE, 'chi': chi, 'beta': beta, 'M': M, 'stps': stps}
+        targs, tkind = typed((n, lam, dE, chi, beta, M, stps), 1, 2)
+        (res, br), exc = _checked(thc_cost, targs, lambda a_: (lambda r3: ((r3[0], r3[1]), r3[2]))(thc_with_br(thc_cost, *a_)))
+        case = {'fn': 'thc.compute_cost', 'n': n, 'lam': lam, 'dE': dE, 'chi': chi, 'beta': beta, 'M': M, 'stps': stps,
+                'argument_types': tkind}
+        s.count('argument_types=' + tkind)
         if exc == 'SystemExit':
             s.discards += 1
             continue
@@ -580,13 +906,15 @@ def stream_costs(ctx, thc_cost, sparse_cost):
         n = 2 * rng.randint(2, 100)
         d = rng.randrange(64, 2 ** rng.choice([8, 12, 16, 20])) * 2 ** rng.choice([0, 0, 1, 3, 5])
         chi = rng.randint(5, 14)
-        lam = rng.choice([1, 3, 10, 57, 306, 1547, 4000]) + rng.choice([0, 0.25, 0.5, 0.75])
-        dE = rng.choice([1 / 1024, 1 / 512, 1 / 256, 0.001, 0.0016, 1 / 64])
+        lam = rng.choice([1, 3, 10, 57, 306, 1547, 4000, 2.0 ** -10, 3 * 2.0 ** -14]) + rng.choice([0, 0, 0.25, 0.5, 0.75])
+        dE = rng.choice([1 / 1024, 1 / 512, 1 / 256, 0.001, 0.0016, 1 / 64, 2.0 ** -17])
         sparse_params.append((n, lam, d, dE, chi, rng.choice([1000, 20000, 50000])))
     pending = []
     for (n, lam, d, dE, chi, stps) in sparse_params:
-        res, exc = call(sparse_cost, n, lam, d, dE, chi, stps)
-        case = {'fn': 'cost_sparse', 'n': n, 'lam': lam, 'd': d, 'dE': dE, 'chi': chi, 'stps': stps}
+        targs, tkind = typed((n, lam, d, dE, chi, stps), 1, 3)
+        res, exc = call(sparse_cost, *targs)
+        case = {'fn': 'cost_sparse', 'n': n, 'lam': lam, 'd': d, 'dE': dE, 'chi': chi, 'stps': stps, 'argument_types': tkind}
+        s.count('argument_types=' + tkind)
         s.case(case)
         s.count('cost_sparse')
         if exc:
@@ -657,6 +985,7 @@ def stream_physical(ctx, pc):
                'rounds x 1 us) and minimality of qubits x duration over every candidate of the searched grid evaluated by the '
                'implementation itself (no Model: irrational powers); non-trivial = every case')
     rng = rng_for(ctx.seed, 'c19-phys')
+    harden(s, rng_for(ctx.seed, 'c19-phys-state'), rate_for(ctx))
     t = 'thorough' if ctx.drift else ctx.tier
     import datetime
     import math
@@ -728,11 +1057,17 @@ def replay(ctx, payload):
     lcu = importlib.import_module('openfermion.circuits.lcu_util')
     ut = importlib.import_module('openfermion.resource_estimates.utils')
     try:
+        if case.get('state_check'):
+            if not case.get('module') or any(isinstance(x, dict) and 'repr' in x for x in case['args']):
+                return None
+            f = getattr(importlib.import_module(case['module']), fn, None)
+            return None if f is None else replay_state(f, case)
         if fn == '_preprocess_for_efficient_roulette_selection':
             import numpy
             ws = case['weights']
             kind = case.get('container', 'list')
-            arg = tuple(ws) if kind == 'tuple' else numpy.array(ws, dtype=kind) if kind in ('int64', 'int32') else list(ws)
+            arg = (tuple(ws) if kind == 'tuple' else numpy.array(ws, dtype=kind) if kind in ('int64', 'int32')
+                   else [numpy.int64(w) for w in ws] if kind == 'npint_list' else list(ws))
             alt, keep = lcu._preprocess_for_efficient_roulette_selection(arg)
             return d.one({'op': 'c19.spec.alias', 'ws': ws, 'alt': [int(x) for x in alt], 'keep': [int(x) for x in keep]}) is True
         if fn in ('preprocess_lcu_coefficients_for_reversible_sampling', '_discretize_probability_distribution'):
@@ -740,8 +1075,11 @@ def replay(ctx, payload):
             cs, eps = case['lcu_coefficients'], case['epsilon']
             kind = case.get('container', 'list')
             arg = (tuple(cs) if kind == 'tuple' else numpy.array(cs, dtype=kind) if kind in ('int64', 'float64')
-                   else [int(c) for c in cs] if kind == 'pyint' else list(cs))
-            alt, keep, mu = lcu.preprocess_lcu_coefficients_for_reversible_sampling(arg, eps)
+                   else [int(c) for c in cs] if kind == 'pyint' else [numpy.float64(c) for c in cs] if kind == 'npfloat_list'
+                   else list(cs))
+            ek = case.get('epsilon_type', 'float')
+            eps_arg = numpy.float64(eps) if ek == 'float64' else numpy.float32(eps) if ek == 'float32' else eps
+            alt, keep, mu = lcu.preprocess_lcu_coefficients_for_reversible_sampling(arg, eps_arg)
             return d.one({'op': 'c19.spec.lcu', 'coeffs': frs(cs), 'eps': fr(eps), 'alt': [int(x) for x in alt],
                           'keep': [int(x) for x in keep], 'mu': int(mu)}) is True
         if fn in ('thc', 'sparse') and 'params' in case:
@@ -774,11 +1112,26 @@ def replay(ctx, payload):
             return d.one({'op': 'c19.spec.power_two', 'm': case['m'], 'c': int(ut.power_two(case['m']))}) is True
         if fn == 'lambda_norm':
             import numpy
-            T = numpy.array(case['one_body'], dtype=float).astype(case.get('one_body_dtype', 'float64'))
+            def cplx(m):
+                return numpy.array([[complex(*e) if isinstance(e, list) else e for e in row] for row in m])
+            if 'edited_in_place' in case:
+                T = cplx(case['one_body'])
+                T = T.real.astype(float) if not numpy.iscomplexobj(T) or not T.imag.any() else T
+            else:
+                T0 = numpy.array(case['one_body'], dtype=float)
+                T = T0.astype(case.get('one_body_dtype', 'float64'))
+                if case.get('imaginary_offdiagonal'):
+                    for p_ in range(T.shape[0]):
+                        for q_ in range(p_ + 1, T.shape[0]):
+                            T[p_, q_], T[q_, p_] = 1j * T0[p_, q_], -1j * T0[p_, q_]
             V = numpy.array(case['two_body'], dtype=float)
-            H = ctx.of.DiagonalCoulombHamiltonian(T.copy(), V.copy(), constant=case['constant'])
+            c = case.get('constant', 0.0)
+            c = complex(*c) if isinstance(c, list) else c
+            H = ctx.of.DiagonalCoulombHamiltonian(T.copy(), V.copy(), constant=c)
+            if T.shape[0] > 5:
+                return None
             x = Fraction(float(lcu.lambda_norm(H)))
-            terms = dch_terms(numpy.array(H.one_body).real, numpy.array(H.two_body), H.constant)
+            terms = dch_terms(numpy.array(H.one_body), numpy.array(H.two_body), 0)
             a = d.one({'op': 'c19.spec.jw_norm', 'n': T.shape[0], 'operator': enc_ferm(terms), 'with_id': False})
             return a is not None and Fraction(a[0], a[1]) == x
         if fn in ('get_one_norm_int', 'get_one_norm_int_woconst'):
@@ -788,6 +1141,8 @@ def replay(ctx, payload):
             h = numpy.array(case['one_body_integrals'], dtype=float).astype(kinds[0])
             g = numpy.array(case['two_body_integrals'], dtype=float).astype(kinds[1])
             const = case['constant']
+            if not case.get('symmetric', True) or h.shape[0] > 3:
+                return None
             terms = enc_ferm(mol_terms(const, h, g))
             if fn == 'get_one_norm_int':
                 x = Fraction(float(gon.get_one_norm_int(const, h, g)))
